@@ -125,7 +125,7 @@ def kindName : TK → String
   | .modPresent => "modpresent" | .modattr => "modattr" | .builtinAttr => "builtinattr" | .buildExc => "buildexc"
   | .truth => "truth" | .raise_ => "raise" | .splat => "splat" | .index => "index" | .idpack => "idpack"
   | .typeOf => "typeof" | .inspect => "inspect" | .probeConn => "probeconn" | .mkclass => "mkclass"
-  | .countOp => "countop" | .cleanup => "cleanup"
+  | .cleanup => "cleanup"
 
 def showEv : Ev → String
   | .request seq => "request " ++ showVal seq
